@@ -96,16 +96,23 @@ def specFmt (is : List Issue) : Fmt :=
 /-! ### Prettify — the notation documented on utils.ToDotPath:
     "Integer segments use bracket notation (e.g., [0]), string segments use dot notation unless
     they contain non-identifier characters [or start with a digit], in which case bracket notation
-    with quotes is used." -/
+    with quotes is used."  The report must name the position the path denotes, so the notation has
+    to be unambiguous: a quoted key is a string literal (`"` and `\` backslash-escaped, what Zod's
+    `JSON.stringify(seg)` does for these two characters), and the empty key — which has no bare
+    spelling — is quoted. -/
 
 def identLike (s : String) : Bool :=
   match s.toList with
-  | [] => true
+  | [] => false
   | c :: cs => !c.isDigit && (c :: cs).all (fun x => x.isAlphanum || x == '_')
+
+def quoteLit (s : String) : String :=
+  "\"" ++ String.join (s.toList.map (fun c =>
+    if c == '"' then "\\\"" else if c == '\\' then "\\\\" else c.toString)) ++ "\""
 
 def docSeg (first : Bool) : Seg → String
   | .idx n => s!"[{n}]"
-  | .key s => if identLike s then (if first then s else "." ++ s) else "[\"" ++ s ++ "\"]"
+  | .key s => if identLike s then (if first then s else "." ++ s) else "[" ++ quoteLit s ++ "]"
 
 def docPath : List Seg → String
   | [] => ""
